@@ -1673,6 +1673,9 @@ int janet_init(void) {
 void janet_sandbox(uint32_t flags) {
     janet_sandbox_assert(JANET_SANDBOX_SANDBOX);
     janet_vm.sandbox_flags |= flags;
+#ifdef JANET_VERIF
+    if (janet_verif_sandbox_notify) janet_verif_sandbox_notify(janet_vm.sandbox_flags);
+#endif
 }
 
 void janet_sandbox_assert(uint32_t forbidden_flags) {
